@@ -1,3 +1,4 @@
+#![recursion_limit = "512"]
 //! wsim — deterministic simulation with fault injection for weechess-rs.
 //!
 //!   wsim check <ID> [--tier quick|thorough] [--seed N] [--runs N] [--jobs N] [--secs N]
